@@ -38,7 +38,7 @@ def parse_file(path, data):
 class C11(Property):
     ID = "C11"
     SESSIONS = ["s0", "s1"]
-    RUNS = {"quick": (700, 700), "thorough": (15000, 15000)}
+    RUNS = {"quick": (2000, 2000), "thorough": (40000, 40000)}
 
     def config(self, rng, tier, faulty):
         big = 48 if tier == "thorough" else 24
@@ -55,7 +55,7 @@ class C11(Property):
                      "toctou"]
             rng.shuffle(kinds)
             cfg["fault_kinds"] = sorted(kinds[: rng.randrange(1, len(kinds) + 1)])
-            cfg["fault_rate"] = rng.pick([0.2, 0.4, 0.6])
+            cfg["fault_rate"] = rng.pick([0.3, 0.5, 0.7])
             cfg["env_kinds"] = cfg["env_kinds"] + rng.pick([[], ["env.capacity", "env.heal"],
                                                             ["env.handle_budget", "env.heal"],
                                                             ["env.readonly", "env.heal"], ["env.foreign_delete"]])
